@@ -177,6 +177,28 @@ pub fn check_pos(c: &PosCase) -> Result<(), String> {
     if os != phwant {
         return Err("IncrementalSigner::finalize differs from libsodium".into());
     }
+    // "incremental mode": the same message in many small pieces (piece size varies with the length) must give
+    // the same pre-hashed signature and verify incrementally
+    if !msg.is_empty() {
+        let k = [1usize, 3, 8, 16, 32, 61][msg.len() % 6];
+        let mut st = crypto_sign_init();
+        let mut s = IncrementalSigner::new();
+        let mut vst = crypto_sign_init();
+        for p in msg.chunks(k) {
+            crypto_sign_update(&mut st, p);
+            s.update(&p);
+            crypto_sign_update(&mut vst, p);
+        }
+        let mut sig2 = [0u8; 64];
+        crypto_sign_final_create(st, &mut sig2, &sk).map_err(|e| format!("final_create: {e:?}"))?;
+        let os2: Vec<u8> = s.finalize(&kp.secret_key).map_err(|e| format!("{e:?}"))?;
+        if sig2 != phwant || os2 != phwant {
+            return Err(format!("pre-hashed signature over a {}-byte message fed in {k}-byte pieces differs from libsodium's", msg.len()));
+        }
+        if crypto_sign_final_verify(vst, &phwant, &pk).is_err() {
+            return Err(format!("crypto_sign_final_verify over {k}-byte pieces rejects libsodium's pre-hashed signature of a {}-byte message", msg.len()));
+        }
+    }
     // every produced signature verifies in both libraries, in its own mode only
     for (prehashed, sg) in [(false, want), (true, phwant)] {
         let n = NegCase { pk: Hex(rpk.to_vec()), msg: Hex(msg.clone()), sig: Hex(sg.to_vec()), prehashed, family: "valid".into() };
